@@ -7,3 +7,13 @@ prop('C16', ['K8', 'K9'],
 prop('C03', ['K1', 'K2', 'K5', 'K8'],
      'sibling traversals agree',
      ['equality of produced lists for every input'])
+
+prop('C06', ['H1', 'H2', 'H3'],
+     'equality and hash',
+     ['equality semantics across construction routes'])
+
+prop('C11', ['S1', 'S2', 'K2'],
+     'pickling', ['cross-process behaviour'])
+prop('C09', ['M4'], 'broadcast', ['lub'])
+prop('C08', ['M5', 'K1'], 'inspection', ['algebra'])
+prop('C14', ['A3'], 'immutability', ['histories'])
